@@ -2,11 +2,12 @@
 """Dev-time helper: apply every stored behaviour-preserving change (benign/<id>/patch.diff) to a scratch worktree and run the checks; every
 check must stay silent (exit 0). usage: regress_benign.py [id ...]   (env CHECKS="C01 C02 .." to restrict)"""
 import glob, os, subprocess, sys
-ids = sys.argv[1:] or sorted(os.path.basename(os.path.dirname(p)) for p in glob.glob("/verif/benign/*/patch.diff"))
+HOME = os.path.dirname(os.path.dirname(os.path.abspath(__file__)))  # /verif or a `vp run` snapshot of it
+ids = sys.argv[1:] or sorted(os.path.basename(os.path.dirname(p)) for p in glob.glob(HOME + "/benign/*/patch.diff"))
 checks = os.environ.get("CHECKS", "C01 C02 C03 C04 C05 C06 C08 C09 C10 C11 C12 C13 C14 C15 C16 C17 C18 C20").split()
 bad = []
 for b in ids:
-    r = subprocess.run(["/verif/tools/try_seed_wt.sh", f"/verif/benign/{b}/patch.diff"] + checks, capture_output=True, text=True, env=dict(os.environ, SLOT="r", SEED_LINES="2"))
+    r = subprocess.run([HOME + "/tools/try_seed_wt.sh", HOME + f"/benign/{b}/patch.diff"] + checks, capture_output=True, text=True, env=dict(os.environ, SLOT="r", SEED_LINES="2"))
     fails = [l for l in r.stdout.splitlines() if l.startswith("== ") and not l.endswith("exit=0")]
     print(b, "silent" if not fails and "exit=" in r.stdout else f"ALARM {fails} {r.stdout[-300:] if 'exit=' not in r.stdout else ''}", flush=True)
     if fails or "exit=" not in r.stdout:
